@@ -66,7 +66,8 @@ def prepare(rp, ce, params):
             else:
                 prog += "Stack::Push:1"
             if special == i and kind == "false": prog += ";Pred::Not:0"
-            if special == i and kind == "data": prog += ";Stack::Push:1;Alu::Add:0"
+            # data output: final stack [2]; its memory must decode as a (here empty) list of mutations: one word 0
+            if special == i and kind == "data": prog += ";Stack::Push:1;Alu::Add:0;Stack::Push:1;Memory::Alloc:0;Stack::Pop:0"
         else:
             prog += f"Stack::Push:{len(ps)};Stack::Drop:0;Stack::Push:{1000 + i}"
         fields[f"prog{i}"] = prog
